@@ -38,16 +38,17 @@ type c07Msg struct {
 }
 
 type c07Shape struct {
-	Msgs    []c07Msg `json:"msgs"`
-	Ext     string   `json:"ext,omitempty"` // "", eth, dyn, unknown, eth+eth, eth+dyn
-	NonCrit bool     `json:"noncrit,omitempty"`
-	Sig     string   `json:"sig,omitempty"` // "", valid
-	Memo    string   `json:"memo,omitempty"`
-	Timeout uint64   `json:"timeout,omitempty"`
-	Payer   bool     `json:"payer,omitempty"`
-	Granter bool     `json:"granter,omitempty"`
-	Fee     string   `json:"fee,omitempty"` // "", more, less, otherdenom, none, two
-	Gas     string   `json:"gas,omitempty"` // "", more, less
+	Msgs        []c07Msg `json:"msgs"`
+	Ext         string   `json:"ext,omitempty"` // "", eth, dyn, unknown, eth+eth, eth+dyn
+	NonCrit     bool     `json:"noncrit,omitempty"`
+	NonCritKind string   `json:"noncrit_kind,omitempty"` // "" = the Ethereum option | dyn | eth+dyn | unknown
+	Sig         string   `json:"sig,omitempty"`          // "", valid
+	Memo        string   `json:"memo,omitempty"`
+	Timeout     uint64   `json:"timeout,omitempty"`
+	Payer       bool     `json:"payer,omitempty"`
+	Granter     bool     `json:"granter,omitempty"`
+	Fee         string   `json:"fee,omitempty"` // "", more, less, otherdenom, none, two
+	Gas         string   `json:"gas,omitempty"` // "", more, less
 	// proto-level surgery after building: raw signature entries without signer infos and vice versa
 	RawSigs       int  `json:"raw_sigs,omitempty"`
 	DropSigInfos  bool `json:"drop_sig_infos,omitempty"`
@@ -125,12 +126,18 @@ func genC07Shape(t *rapid.T) c07Shape {
 		s.Msgs = append(s.Msgs, genMsg())
 	}
 	// each further dimension deviates from the canonical Ethereum shape with small probability
-	dev := func(label string) bool { return rapid.IntRange(0, 7).Draw(t, label) == 7 }
+	// (one case in three deviates often, so that combinations of two or three deviations - e.g. no critical option
+	// but a non-critical one - are generated regularly, not once in a thousand cases)
+	devRate := rapid.SampledFrom([]int{7, 7, 2}).Draw(t, "devrate")
+	dev := func(label string) bool { return rapid.IntRange(0, devRate).Draw(t, label) == devRate }
 	s.Ext = "eth"
 	if dev("devext") {
 		s.Ext = rapid.SampledFrom([]string{"", "dyn", "unknown", "eth+eth", "eth+dyn"}).Draw(t, "ext")
 	}
 	s.NonCrit = dev("devnoncrit")
+	if s.NonCrit {
+		s.NonCritKind = rapid.SampledFrom([]string{"", "dyn", "eth+dyn", "unknown"}).Draw(t, "noncritkind")
+	}
 	if dev("devsig") {
 		s.Sig = "valid"
 	}
@@ -312,7 +319,16 @@ func buildC07(c *chain.Chain, s c07Shape, k int, seq, accNum uint64) ([]byte, *e
 		ct.ExtOpts = []*codectypes.Any{ethOpt, dynOpt}
 	}
 	if s.NonCrit {
-		ct.NonCritExt = []*codectypes.Any{ethOpt}
+		switch s.NonCritKind {
+		case "dyn":
+			ct.NonCritExt = []*codectypes.Any{dynOpt}
+		case "eth+dyn":
+			ct.NonCritExt = []*codectypes.Any{ethOpt, dynOpt}
+		case "unknown":
+			ct.NonCritExt = []*codectypes.Any{unkOpt}
+		default:
+			ct.NonCritExt = []*codectypes.Any{ethOpt}
+		}
 	}
 	if s.Payer {
 		ct.FeePayer = key.Acc().String()
